@@ -68,6 +68,22 @@ func otherOp(t *rapid.T, kind string) string {
 }
 
 // c09Inject draws a valid model, applies exactly one injection and returns the renderer input.
+// atThreshold: one injection in four happens at a position next to a power of two (the 8th/9th, 16th/17th, 32nd/33rd or
+// last element) of a container that is first grown to hold that many elements. It returns the wanted length and index.
+func atThreshold(t *rapid.T, label string) (grow, idx int, ok bool) {
+	if rapid.IntRange(0, 3).Draw(t, label+"AtThreshold") != 0 {
+		return 0, 0, false
+	}
+	grow = rapid.SampledFrom([]int{9, 10, 17, 18, 33, 34}).Draw(t, label+"Grow")
+	var cands []int
+	for _, c := range []int{7, 8, 15, 16, 31, 32, grow - 1} {
+		if c < grow {
+			cands = append(cands, c)
+		}
+	}
+	return grow, rapid.SampledFrom(cands).Draw(t, label+"Idx"), true
+}
+
 func c09Inject(t *rapid.T) (c09Input, bool) {
 	m := gen.DSLModel(t, gen.DSLOpts{Rich: true, Conditions: true, MultiLine: false, MaxTypes: 4, MaxRels: 4, Scale: true})
 	in := c09Input{Model: m}
@@ -184,6 +200,18 @@ func c09Inject(t *rapid.T) (c09Input, bool) {
 	case "duplicate-relation":
 		ti, ri := ensureRel()
 		td := &m.Types[ti]
+		if grow, idx, ok := atThreshold(t, "dupRel"); ok {
+			have := map[string]bool{}
+			for _, r := range td.Rels {
+				have[r.Name] = true
+			}
+			for i := 0; len(td.Rels) < grow; i++ {
+				if nm := fmt.Sprintf("g%02d", i); !have[nm] {
+					td.Rels = append(td.Rels, gen.Relation{Name: nm, Rw: &gen.Rewrite{Kind: gen.Computed, Rel: "x"}})
+				}
+			}
+			ri = idx
+		}
 		dup := td.Rels[ri]
 		dup.Rw = dup.Rw.Clone()
 		if rapid.Bool().Draw(t, "otherDef") {
@@ -197,6 +225,18 @@ func c09Inject(t *rapid.T) (c09Input, bool) {
 		inj.Site = fmt.Sprintf("%s#%s repeated as relation #%d", td.Name, dup.Name, pos)
 	case "duplicate-condition":
 		ci := ensureCond()
+		if grow, idx, ok := atThreshold(t, "dupCond"); ok {
+			have := map[string]bool{}
+			for _, c := range m.Conds {
+				have[c.Name] = true
+			}
+			for i := 0; len(m.Conds) < grow; i++ {
+				if nm := fmt.Sprintf("gc%02d", i); !have[nm] {
+					m.Conds = append(m.Conds, gen.Condition{Name: nm, Params: []gen.Param{{Name: "x", Type: "int"}}, Expr: "x > 1"})
+				}
+			}
+			ci = idx
+		}
 		dup := m.Conds[ci]
 		dup.Params = append([]gen.Param(nil), dup.Params...)
 		pos := rapid.IntRange(ci+1, len(m.Conds)).Draw(t, "dupPos")
@@ -208,6 +248,18 @@ func c09Inject(t *rapid.T) (c09Input, bool) {
 		ci := ensureCond()
 		cd := &m.Conds[ci]
 		pi := rapid.IntRange(0, len(cd.Params)-1).Draw(t, "paramSite")
+		if grow, idx, ok := atThreshold(t, "dupParam"); ok {
+			have := map[string]bool{}
+			for _, p := range cd.Params {
+				have[p.Name] = true
+			}
+			for i := 0; len(cd.Params) < grow; i++ {
+				if nm := fmt.Sprintf("gp%02d", i); !have[nm] {
+					cd.Params = append(cd.Params, gen.Param{Name: nm, Type: "int"})
+				}
+			}
+			pi = idx
+		}
 		dup := cd.Params[pi]
 		if rapid.Bool().Draw(t, "otherType") {
 			dup.Type, dup.Elem = "bool", ""
@@ -231,6 +283,18 @@ func c09Inject(t *rapid.T) (c09Input, bool) {
 			m.Types = append(m.Types, gen.TypeDef{Name: "doc"})
 		}
 		ti := rapid.IntRange(0, len(m.Types)-1).Draw(t, "typeSite")
+		if grow, idx, ok := atThreshold(t, "dupExt"); ok {
+			have := map[string]bool{}
+			for _, x := range m.Types {
+				have[x.Name] = true
+			}
+			for i := 0; len(m.Types) < grow; i++ {
+				if nm := fmt.Sprintf("gt%02d", i); !have[nm] {
+					m.Types = append(m.Types, gen.TypeDef{Name: nm})
+				}
+			}
+			ti = idx
+		}
 		dup := gen.TypeDef{Name: m.Types[ti].Name}
 		if rapid.Bool().Draw(t, "withRel") {
 			dup.Rels = []gen.Relation{{Name: "extra_rel", Rw: &gen.Rewrite{Kind: gen.Computed, Rel: "x"}}}
